@@ -63,6 +63,13 @@ Theorem C15_schedule_partial :
 Proof. exact sched_agree. Qed.
 Print Assumptions C15_schedule_partial.
 
+(** The small repair proposed in the report (restart the scan after each emitted variable; [r_sched]
+    transcribes the repaired loop, the code is unchanged): on every dependency graph it schedules
+    exactly like the specification, so [C15_partial] would hold without [no_skipped_ready]. *)
+Theorem C15_repair_schedule_full : forall nodes, r_sched nodes = g_sched nodes.
+Proof. exact repair_agree. Qed.
+Print Assumptions C15_repair_schedule_full.
+
 (** Packages: if the packages are listed in import-path order, each after its imports, and yaegi
     loads them in that order, Go initialises them in that order too. *)
 Theorem C15_pkg_order_partial : forall g, pkgs_in_path_order g = true -> g_pkg_order g = y_pkg_order g.
